@@ -32,6 +32,16 @@ theorem Inv.init (size prevCap : Nat) (hs : 1 ≤ size) :
   · simp only [Dict.init, hp, if_false]
     constructor <;> (try simp) <;> (try omega)
 
+/-- the invariant holds after `Init` over a used buffer, whatever stale bytes it holds: it says
+    nothing about cells at or above the write cursor of a buffer that is not full. -/
+theorem Inv.initOver (size prevCap : Nat) (stale : Array UInt8) (hs : 1 ≤ size) :
+    Inv size (Dict.initOver size prevCap stale) [] [] := by
+  by_cases hp : prevCap = 0
+  · subst hp
+    constructor <;> (try simp [Dict.initOver, initSize]) <;> (try omega)
+  · simp only [Dict.initOver, hp, if_false]
+    constructor <;> (try simp [hp]) <;> (try omega)
+
 /-- writing `bs` at the write cursor (no wrap) appends `bs` to the output. -/
 theorem Inv.append {size : Nat} {d : Dict} {out acc : List UInt8} (I : Inv size d out acc)
     (d' : Dict) (bs : List UInt8)
